@@ -98,7 +98,7 @@ impl Variable {
             Type::Int => Some(0.into()),
             Type::Float => Some(0.0.into()),
             Type::String => Some("".into()),
-            Type::Function(arc) => Some(Function::of_type(arc).into()),
+            Type::Function(arc) => Function::of_type(arc).map(Into::into),
             Type::Array(arc) => Some(
                 Array {
                     element_type: arc.as_ref().clone(),
